@@ -234,6 +234,8 @@ class Walker:
                 return "ret"
             elif isinstance(st, (ast.Continue, ast.Break)):
                 return "loop"
+            elif isinstance(st, (ast.Assert, ast.Pass, ast.Global, ast.Nonlocal, ast.Import, ast.ImportFrom)):
+                continue      # defensive assertions and declarations are not effects
             else:
                 if isinstance(st, ast.Assign) and len(st.targets) == 1 and isinstance(st.targets[0], ast.Name):
                     nm = st.targets[0].id
